@@ -75,3 +75,9 @@ Theorem C13_abs_error_is_max_difference : forall x ref,
   forall j, j < length x -> (Qabs (nth j x 0%Q - nth j ref 0%Q) <= tv_abs t)%Q.
 Proof. exact tv_abs_is_max_difference. Qed.
 Print Assumptions C13_abs_error_is_max_difference.
+
+(* With a list of steps the merged report holds exactly the entries some step flagged. *)
+Theorem C13_step_list_union : forall (lists : list (list (nat * nat))) acc p,
+  In p (fold_left add_new lists acc) <-> In p acc \/ exists l, In l lists /\ In p l.
+Proof. exact merged_steps_In. Qed.
+Print Assumptions C13_step_list_union.
